@@ -19,10 +19,13 @@ B_FAMILIES = [
     "## Todo\n*\n* buy milk\n* call Bob\n", "-\n- b\n", "para\n1.\n2. x\n", "# h\n+\n+ a\n\n+ b\n", "text\n-\n- y\n", "***\n*\n* z\n",
     "> q\n> 2. x\n", "- a\n  - b\n\n  - c\n- d\n", "1. a\n\n   b\n2. c\n", "title\n===\nnext\n---\n", "[ref]: /u\n[bad\n", "[r]: /u\nx\n===\n",
     "para\n    not code\n", "<div>\nx\n\ny\n", "```\nf\n```\n- a\n- b\n", "x\n2. not a list start\n1. but this\n", "> a\nlazy\n- l\n", "- a\n\n\n- b\n",
+    # rows whose text occurs in A as well, with empty cells at the pipes (anything remembered per row text would show)
+    "| item | cost |\n|------|------|\n|| 3 |\n", "|| total |\n|--|--|\n| b | 2 |\n", "|a|b|\n|-|-|\n||2|\n|3||\n", "||a|\n|-|-|\n|1|2|\n",
     "* a\n\n  para\n* b\n", "-   a\n\n    b\n", "10. a\n11. b\n", "- [x]: /def\n- y\n", "a\n-\nb\n=\n", "> - a\n> - b\n\npara\n", "1. a\n1. b\n   ```\n   c\n",
 ]
 A_FAMILIES = ["Some introduction.\n", "# Title\n", "Notes.\n", "para\nmore\n", "x\n===\n", "- l\n", "> q\n", "[d]: /u\n", "[not a def\n", "    code\n",
-              "```\nf\n```\n", "<div>\nh\n", "***\n", "a\n\nb\n\n", "- a\n\n  b\n", "> - a\n", "1. x\n2. y\n", "|a|\n|-|\n|b|\n", "text\n[d]: /u\n", "[d]: /u\ntext\n"]
+              "```\nf\n```\n", "<div>\nh\n", "***\n", "a\n\nb\n\n", "- a\n\n  b\n", "> - a\n", "1. x\n2. y\n", "|a|\n|-|\n|b|\n", "text\n[d]: /u\n", "[d]: /u\ntext\n",
+              "| name | qty |\n|------|-----|\n|| 3 |\n", "|| total |\n|--|--|\n| a | 1 |\n\nSome text.\n", "|a|b|\n|-|-|\n||2|\n|3||\n", "||a|\n|-|-|\n|1|2|\n"]
 
 
 def clean(src):
@@ -166,7 +169,7 @@ def run(ctx) -> int:
     cov = proof_cov("C07", proofs, ["concat_law at document level is decided on the implementation in this run; proved: the line tables carry nothing across a line end (partial)"])
     cov.update({
         "evaluations": n_run + count["pairs"], "distinct_nontrivial": len(set(lines)) + count["pairs"],
-        "rule": "A, B: generated documents (seed corpus mutations, container x leaf grammar) and hand families stressing what could leak: tables followed directly by list lines, lists with empty first items, failed setext headings / definitions before lists, loose/tight lists, lazy lines; tab-free, newline-terminated; side conditions decided as the property states them (A + blank + 'zzz' yields A's blocks then a new paragraph; B starts at column 0; not list+list / code+code at the seam); configurations: commonmark, js-default, commonmark+table, random rule subsets; compared on block tokens incl. maps (shifted; container maps with trailing blank lines trimmed), levels, hidden, markup, info, inline content; children excluded",
+        "rule": "A, B: generated documents (seed corpus mutations, container x leaf grammar) and hand families stressing what could leak: tables followed directly by list lines, lists with empty first items, failed setext headings / definitions before lists, tables in A and B sharing row texts with empty edge cells, loose/tight lists, lazy lines; tab-free, newline-terminated; side conditions decided as the property states them (A + blank + 'zzz' yields A's blocks then a new paragraph; B starts at column 0; not list+list / code+code at the seam); configurations: commonmark, js-default, commonmark+table, random rule subsets; compared on block tokens incl. maps (shifted; container maps with trailing blank lines trimmed), levels, hidden, markup, info, inline content; children excluded",
         "samples": [{"A": "Notes.\n", "B": B_FAMILIES[4]}], "traces_validated_against_impl": n_run, "implementation_probes": count,
         "in_kernel_cases": kn, "in_kernel_mismatches": len(kbad), "disagreements": len(disagreements),
     })
